@@ -165,6 +165,9 @@ class ChainWorld(World):
         self.policy = {}                        # name bytes -> 'ok' | 'lost' | 'nack' | ['lost', n]
         self.fetches = {}
         self.instances = {}
+        self.inflight_validations = 0
+        self.running_vids = set()
+        self.overlap_marks = []
         self.harness_tasks = set()
         from ndn.app_support.light_versec import Checker, DEFAULT_USER_FNS
         self.checker = Checker(compiled('2b' if scenario.get('two_roots') else scenario['depth']), DEFAULT_USER_FNS)
@@ -198,7 +201,7 @@ class ChainWorld(World):
         elif k in ('missing-cert', 'nack-cert'):
             self.policy[self.label_name(dev['label'])] = 'lost' if k == 'missing-cert' else 'nack'
         elif k == 'transient-loss':
-            self.policy[self.label_name(dev['label'])] = ['lost', dev.get('n', 1)]
+            self.policy[self.label_name(dev['label'])] = [dev.get('how', 'lost'), dev.get('n', 1)]
         elif k == 'wrong-issuer-cert':
             # the certificate of `label` is (validly) signed by a key the schema does not allow for it
             self.store[self.label_name(dev['label'])] = self.reissue(dev['label'], signer_label=dev['by_label'])
@@ -261,8 +264,8 @@ class ChainWorld(World):
         del n
         if isinstance(pol, list):
             kind, cnt = pol
-            if kind == 'lost':
-                pol = 'lost' if idx < cnt else 'ok'
+            if kind in ('lost', 'nack'):
+                pol = kind if idx < cnt else 'ok'
             else:
                 pol = 'ok' if idx < cnt else 'lost'
         if pol == 'lost':
@@ -342,11 +345,28 @@ class ChainWorld(World):
         name, _mi, _c, sig = enc.parse_data(wire)
         self.tok('V')
         store_snapshot = dict(self.store)
-        policy_snapshot = copy.deepcopy(self.policy)
+        policy_snapshot = {}
+        for key, pol in self.policy.items():
+            if isinstance(pol, list) and pol[0] in ('lost', 'nack'):
+                # transient fault: the first n fetches fail; what matters is whether the *next* fetch would
+                policy_snapshot[key] = pol[0] if self.fetches.get(key, 0) < pol[1] else 'ok'
+            else:
+                policy_snapshot[key] = copy.deepcopy(pol)
+        self.inflight_validations += 1
+        overlapped = self.inflight_validations > 1
+        self.overlap_marks.append(op['vid']) if overlapped else None
+        for other in self.running_vids:
+            self.overlap_marks.append(other)
+        self.running_vids.add(op['vid'])
+        t_start = self.now_us()
         try:
-            ok = await asyncio.wait_for(v(name, sig), timeout=self.scenario.get('validate_timeout_s', 60))
+            try:
+                ok = await asyncio.wait_for(v(name, sig), timeout=self.scenario.get('validate_timeout_s', 60))
+            finally:
+                self.inflight_validations -= 1
+                self.running_vids.discard(op['vid'])
             self.log('verdict', vid=op['vid'], iid=op['iid'], out=bool(ok), raw=repr(ok), wire=wire,
-                     store=store_snapshot, policy=policy_snapshot)
+                     store=store_snapshot, policy=policy_snapshot, t_start=t_start)
         except asyncio.TimeoutError:
             self.log('verdict', vid=op['vid'], iid=op['iid'], out='bounded', wire=wire, store=store_snapshot, policy=policy_snapshot)
         except asyncio.CancelledError:
@@ -452,7 +472,8 @@ class ChainWorld(World):
             elif not bad_anchor and not e['ok']:
                 self.violate('C14', 'good-anchor-refused', 'lvs' if not op.get('bare') else 'cascade', 'constructor',
                              f'validator {op["iid"]} refused a proper trust anchor: {e.get("exc")}')
-        transient = any(isinstance(p, list) and p[0] == 'lost' for p in self.policy.values())
+        has_transient = any(isinstance(p, list) and p[0] in ('lost', 'nack') for p in self.policy.values())
+        overlapping = set(self.overlap_marks)
         for e in ev:
             if e['k'] != 'verdict':
                 continue
@@ -474,12 +495,16 @@ class ChainWorld(World):
             got = e['out'] is True
             desc = f'validation {e["vid"]} by instance {e["iid"]} (anchor {iop.get("anchor", "root")}, deviation ' \
                    f'{self.scenario.get("deviation")}, forged packet field {[o.get("forge") for o in self.scenario["ops"] if o.get("vid") == e["vid"]]})'
+            transient = has_transient and e['vid'] in overlapping
             if got and not upper:
                 self.violate('C14', 'accepted-without-chain', comp, self._why(e),
                              f'{desc}: accepted, but no valid chain to the anchor exists in what the network serves')
-            elif got and not exact:
+            elif got and not exact and not transient:
                 self.violate('C14', 'accepted-unretrievable', comp, self._why(e),
                              f'{desc}: accepted although a certificate on the chain cannot be retrieved')
+            transient = has_transient and e['vid'] in overlapping      # fetch counters are only predictable for validations run alone
+            if got and not upper:
+                pass
             elif not got and exact and not transient and e['out'] is False:
                 self.violate('C14', 'rejected-valid-chain', comp, self._why(e),
                              f'{desc}: rejected although a valid, retrievable chain to the anchor exists')
@@ -540,6 +565,7 @@ def generate(rng, seed, tier='quick'):
             deviation['by'] = rng.choice([['ec', 9], ['ec', 9], ['rsa', 5]])
         if kind == 'transient-loss':
             deviation['n'] = rng.randint(1, 2)
+            deviation['how'] = rng.choice(['lost', 'nack', 'nack'])
         if kind == 'loop':
             others = [lb for lb in chain_labels if lb != label]
             if not others:
@@ -589,7 +615,8 @@ def generate(rng, seed, tier='quick'):
             if rng.random() < 0.1:
                 v['forge'] = rng.choice(['content', 'sigvalue', 'siginfo', 'name'])
             ops.append(v)
-            t += rng.choice([0, 1, 1000, 5_000_000])
+            t += rng.choice([0, 1, 1000, 5_000_000]) if not (deviation and deviation.get('kind') == 'transient-loss') \
+                else rng.choice([1000, 20_000_000, 20_000_000])
         t += 10_000_000
         if k + 1 < n_inst and chain_labels and rng.random() < 0.6:
             ops.append({'at': t, 'op': 'store', 'change': rng.choice(['withdraw', 'attacker', 'attacker']),
